@@ -32,6 +32,32 @@ WORKLOADS = [
     ("raises", "lambda m, i: m.raises(i)"),
     ("prints", "lambda m, i: m.prints(i)"),
 ]
+# workloads on which the unchanged tracer is known to differ (open findings), each with the one difference that is attributed
+KF_WORKLOADS = [
+    ("metaclass_hash", "lambda m, i: m.takes_class(i)", "KF-C03-metaclass-hash"),
+    ("locals_snapshot", "lambda m, i: m.locals_snapshot(i)", "KF-C03-locals-snapshot-refreshed"),
+    ("finalizer_order", "lambda m, i: m.finalizer_order(i)", "KF-C03-function-cache-delays-finalizers"),
+]
+
+
+def known_difference(name, base, got):
+    """the finding id if (base, got) differ in exactly the recorded way, else None"""
+    same_rest = got["stdout"] == base["stdout"] and got["lazy"] == base["lazy"]
+    if name == "metaclass_hash":
+        extra = [j for j in got["journal"] if j not in base["journal"]]
+        if same_rest and got["result"] == base["result"] and extra and set(extra) == {("HashMeta.__hash__",)}:
+            return "KF-C03-metaclass-hash"
+    if name == "locals_snapshot":
+        if same_rest and got["journal"] == base["journal"] and base["result"] == ("ok", describe(2)) and got["result"] == ("ok", describe(1)):
+            return "KF-C03-locals-snapshot-refreshed"
+    if name == "finalizer_order":
+        # the finalizer runs after the print, or only once the logged traces (which refer to the function) are dropped too
+        if same_rest and got["result"] == base["result"] and base["journal"] == [("Fin.__del__",), ("after outer",)] and \
+                got["journal"] in ([("after outer",), ("Fin.__del__",)], [("after outer",)]):
+            return "KF-C03-function-cache-delays-finalizers"
+    return None
+
+
 FAULTS = [("none", (), False), ("log1", (1,), False), ("log2", (2,), False), ("log_all", tuple(range(1, 200)), False),
           ("flush", (), True), ("log1+flush", (1,), True)]
 
@@ -102,8 +128,8 @@ def run(pid, tier, seed):
     try:
         mod, _ = pd.load("c03trip_%d" % (seed % 1000), tripwires.SOURCE)
         reps = range(11 if quick else 80)   # 11 = one round through every tripwire kind of the module
-        for name, wl in WORKLOADS:
-            for i in reps:
+        for name, wl, kf_id in [(n, w, None) for n, w in WORKLOADS] + KF_WORKLOADS:
+            for i in (reps if kf_id is None else range(2)):
                 base = execute(mod, wl, i, False, 0, FAULTS[0], tbl)
                 for k in (0, 3, 10):
                     for fault in (FAULTS if (k == 0 or i == 0 or not quick) else FAULTS[:1]):
@@ -111,11 +137,14 @@ def run(pid, tier, seed):
                         got = execute(mod, wl, i, True, k, fault, tbl)
                         case = {"workload": name, "i": i, "k": k, "fault": fault[0]}
                         chk.count("workload." + name)
+                        kf = known_difference(name, base, got) if kf_id else None
                         if got["journal"] != base["journal"] or got["lazy"] != base["lazy"]:
                             extra = [j for j in got["journal"] if j not in base["journal"]]
-                            chk.fail("user-code-executed", dict(case, detail="the tracer invoked hooks of the program's objects", hooks=extra[:6]))
+                            chk.fail("user-code-executed", dict(case, detail="the tracer invoked hooks of the program's objects (or changed their order)",
+                                                                hooks=extra[:6], traced_journal=got["journal"][:8], untraced_journal=base["journal"][:8]),
+                                     finding=kf)
                         if got["result"] != base["result"]:
-                            chk.fail("result-changed", dict(case, traced=got["result"], untraced=base["result"]))
+                            chk.fail("result-changed", dict(case, traced=got["result"], untraced=base["result"]), finding=kf)
                         if got["stdout"] != base["stdout"]:
                             chk.fail("output-changed", dict(case, traced=got["stdout"], untraced=base["stdout"]))
                         if not got["profiler_restored"]:
